@@ -498,6 +498,8 @@ int main(int argc, char **argv) {
     static const bstep sparsebm[] = {{"AddRange", 0, 4096, ""}, {"Add", 5000, 0, ""}, {"RemoveRange", 10, 4090, ""}};
     static const bstep clearedbm[] = {{"AddRange", 0, 4096, ""}, {"Add", 5000, 0, ""}, {"Clear", 0, 0, ""},
                                       {"Add", 65535, 0, ""}, {"Add", 3, 0, ""}};
+    /* a small run container (only a foreign serialisation produces one): Add / Remove dissolve it into an array */
+    static const bstep smallruns[] = {{"AddRange", 100, 116, ""}, {"Add", 300, 0, ""}, {"AsRuns", 0, 0, ""}};
     static const bstep after[] = {{"Add", 60000, 0, ""}, {"Remove", 7, 0, ""}, {"AddRange", 200, 210, ""}};
     struct {
         const char *name;
@@ -527,6 +529,9 @@ int main(int argc, char **argv) {
         {"codec array", few, 2, {"Codec", 0, 0, ""}},
         {"codec bitmap", fill4097, 2, {"Codec", 0, 0, ""}},
         {"codec runs", runs, 1, {"Codec", 0, 0, ""}},
+        {"small runs -> array add", smallruns, 3, {"Add", 50, 0, ""}},
+        {"small runs -> array remove", smallruns, 3, {"Remove", 105, 0, ""}},
+        {"small runs clone", smallruns, 3, {"Clone", 0, 0, ""}},
         {"optimize slack array", slack, 2, {"Optimize", 0, 0, ""}},
         {"optimize sparse dense", sparsebm, 3, {"Optimize", 0, 0, ""}},
         {"optimize runs", runs, 1, {"Optimize", 0, 0, ""}},
